@@ -173,125 +173,154 @@ Section Check.
 
 End Check.
 
-(** ** Wire-level cases on real bytes *)
+(** ** Wire-level cases *)
 
-Notation bframe := (frame bytes).
-Notation bepkt := (epkt bytes).
-Notation bpacket := (spacket bytes).
+Definition no_split {data} (b : list (frame data)) : list (list (frame data)) := [b].
 
-(** (transport, expect-complete, per-emitter packets, observed wire, observed finished) *)
-Definition wcase := (transport * bool * list (list bpacket) * list bepkt * list (nat * nat * list bytes))%type.
+Section WireCase.
+  Context {data : Type}.
+  Variable deqb : data -> data -> bool.
+  Variable declared : data -> option nat.
 
-Definition no_split (b : list bframe) : list (list bframe) := [b].
+  (** (transport, expect-complete, per-emitter packets, observed wire, observed finished) *)
+  Definition gcase :=
+    (transport * bool * list (list (spacket data)) * list (epkt data) * list (nat * nat * list data))%type.
 
-Definition wire_decompose (progs : list (list bpacket)) (w : list bepkt) :=
-  let fr := msgs w in check_wire bytes_eqb (length fr) progs fr.
+  Definition wire_decompose (progs : list (list (spacket data))) (w : list (epkt data)) :=
+    let fr := msgs w in check_wire deqb (length fr) progs fr.
 
-(** What the decoder must have finished for the interleaving [order]: the emitter, the position in
-    its burst, and the packet's own attachments. *)
-Fixpoint expected_finished (ls : list (list bpacket)) (pos : list nat) (order : list nat)
-  : list (nat * nat * list bytes) :=
-  match order with
-  | [] => []
-  | i :: o =>
-      match nth_error ls i with
-      | Some (p :: rest) =>
-          (i, nth i pos 0, sp_atts p)
-            :: expected_finished (set_nth ls i rest) (set_nth pos i (S (nth i pos 0))) o
-      | _ => []
-      end
-  end.
+  (** What the decoder must have finished for the interleaving [order]: the emitter, the position
+      in its burst, and the packet's own attachments. *)
+  Fixpoint expected_finished (ls : list (list (spacket data))) (pos : list nat) (order : list nat)
+    : list (nat * nat * list data) :=
+    match order with
+    | [] => []
+    | i :: o =>
+        match nth_error ls i with
+        | Some (p :: rest) =>
+            (i, nth i pos 0, sp_atts p)
+              :: expected_finished (set_nth ls i rest) (set_nth pos i (S (nth i pos 0))) o
+        | _ => []
+        end
+    end.
 
-Definition fin_eqb (a b : nat * nat * list bytes) : bool :=
-  let '(ai, aj, aa) := a in let '(bi, bj, ba) := b in
-  Nat.eqb ai bi && Nat.eqb aj bj && list_eqb bytes_eqb aa ba.
+  Definition fin_eqb (a b : nat * nat * list data) : bool :=
+    let '(ai, aj, aa) := a in let '(bi, bj, ba) := b in
+    Nat.eqb ai bi && Nat.eqb aj bj && list_eqb deqb aa ba.
 
-Definition oracle_wire (c : wcase) : bool :=
-  let '(tr, complete, progs, w, fin) := c in
-  match wire_decompose progs w with
-  | Some (order, rem) =>
-      (if complete then all_nil rem else true)
-      && list_eqb fin_eqb fin (expected_finished progs (map (fun _ => 0) progs) order)
-  | None => false
-  end.
+  Definition oracle_wire_g (c : gcase) : bool :=
+    let '(tr, complete, progs, w, fin) := c in
+    match wire_decompose progs w with
+    | Some (order, rem) =>
+        (if complete then all_nil rem else true)
+        && list_eqb fin_eqb fin (expected_finished progs (map (fun _ => 0) progs) order)
+    | None => false
+    end.
 
-Fixpoint pick_header (f : bframe) (i : nat) (l : list (list bpacket))
-  : option (nat * bpacket * list bpacket) :=
-  match l with
+  (** The emitter whose next packet starts with the frame [f]. *)
+  Fixpoint pick_header (f : frame data) (i : nat) (l : list (list (spacket data)))
+    : option (nat * spacket data * list (spacket data)) :=
+    match l with
+    | [] => None
+    | (p :: rest) :: l' =>
+        if frame_eqb deqb (mkFrame false (sp_hdr p)) f then Some (i, p, rest)
+        else pick_header f (S i) l'
+    | [] :: l' => pick_header f (S i) l'
+    end.
+
+  (** Guess a schedule of the model that reproduces the observation (emit one packet, drain it,
+      send its chunks; control packets where they were seen; then the peer processes everything). *)
+  Fixpoint explain_walk (tr : transport) (ls : list (list (spacket data)))
+           (cur : list (frame data)) (w : list (epkt data)) : option (list action) :=
+    match w with
+    | [] => Some []
+    | Ctl ty :: w' =>
+        match explain_walk tr ls cur w' with
+        | Some s => Some (Control ty :: (match tr with PollServer => [Poll] | _ => [] end) ++ s)
+        | None => None
+        end
+    | Msg f :: w' =>
+        match cur with
+        | g :: cur' =>
+            (* inside a packet: websocket sends frame by frame, polling sent it whole *)
+            match explain_walk tr ls cur' w' with
+            | Some s => Some ((match tr with WS => [DrSend] | _ => [] end) ++ s)
+            | None => None
+            end
+        | [] =>
+            match pick_header f 0 ls with
+            | Some (i, p, rest) =>
+                match explain_walk tr (set_nth ls i rest) (tl (frames_of p)) w' with
+                | Some s =>
+                    Some (Emit i :: DrGet :: DrSend
+                            :: (match tr with PollServer => [Poll] | _ => [] end) ++ s)
+                | None => None
+                end
+            | None => None
+            end
+        end
+    end.
+
+  Definition explain_wire (tr : transport) (progs : list (list (spacket data))) (w : list (epkt data))
+    : option (list action) :=
+    match explain_walk tr progs [] w with
+    | Some s => Some (s ++ repeat Recv (length w))
+    | None => None
+    end.
+
+  (** The observed finished list (emitter, seq, decoded attachments) against the model's. *)
+  Fixpoint fin_matches (progs : list (list (spacket data))) (fin : list (nat * nat * list data))
+           (finished : list (spacket data)) : bool :=
+    match fin, finished with
+    | [], [] => true
+    | (i, j, atts) :: fin', p :: finished' =>
+        match nth_error (nth i progs []) j with
+        | Some q => deqb (sp_hdr q) (sp_hdr p) && list_eqb deqb atts (sp_atts p)
+                    && fin_matches progs fin' finished'
+        | None => false
+        end
+    | _, _ => false
+    end.
+
+  Definition agree_wire_g (c : gcase) : bool :=
+    let '(tr, complete, progs, w, fin) := c in
+    match explain_wire tr progs w with
+    | Some sched =>
+        match run_opt declared 0 no_split tr sched progs with
+        | Some s =>
+            list_eqb (epkt_eqb deqb) (st_wire s) w
+            && negb (st_rerr s)
+            && fin_matches progs fin (st_finished s)
+            && (if complete
+                then all_nil (st_em s) && match st_parser s with None => true | _ => false end
+                else true)
+        | None => false
+        end
+    | None => false
+    end.
+End WireCase.
+
+(** *** on real bytes (parseHeader's count read from the header bytes) *)
+Definition wcase := @gcase bytes.
+Definition oracle_wire (c : wcase) : bool := oracle_wire_g bytes_eqb c.
+Definition agree_wire (c : wcase) : bool := agree_wire_g bytes_eqb declared_bytes c.
+Definition ok_wire (c : wcase) : bool := oracle_wire c && agree_wire c.
+
+(** *** on interned frames: a frame is the index of its byte string in the scenario's table of
+    distinct byte strings (equal ids iff equal bytes); the header of a packet announces the
+    attachments the reference encoder produced for it. *)
+Definition icase := @gcase N.
+
+Fixpoint declared_tbl (progs : list (spacket N)) (h : N) : option nat :=
+  match progs with
   | [] => None
-  | (p :: rest) :: l' =>
-      if frame_eqb bytes_eqb (mkFrame false (sp_hdr p)) f then Some (i, p, rest)
-      else pick_header f (S i) l'
-  | [] :: l' => pick_header f (S i) l'
+  | p :: l => if N.eqb (sp_hdr p) h then Some (length (sp_atts p)) else declared_tbl l h
   end.
 
-(** Guess a schedule of the model that reproduces the observation (emit one packet, drain it, send
-    its chunks; control packets where they were seen; then let the peer process everything). *)
-Fixpoint explain_walk (tr : transport) (fuel : nat) (ls : list (list bpacket))
-         (cur : list bframe) (w : list bepkt) : option (list action) :=
-  match w with
-  | [] => match cur with [] => Some [] | _ => Some [] end
-  | e :: w' =>
-      match fuel with
-      | O => None
-      | S fuel' =>
-          match e with
-          | Ctl ty =>
-              match explain_walk tr fuel' ls cur w' with
-              | Some s => Some (Control ty :: (match tr with PollServer => [Poll] | _ => [] end) ++ s)
-              | None => None
-              end
-          | Msg f =>
-              match cur with
-              | g :: cur' =>
-                  (* inside a packet: websocket sends frame by frame, polling sent it whole *)
-                  match explain_walk tr fuel' ls cur' w' with
-                  | Some s => Some ((match tr with WS => [DrSend] | _ => [] end) ++ s)
-                  | None => None
-                  end
-              | [] =>
-                  (* the emitter whose next packet starts with this frame *)
-                  match pick_header f 0 ls with
-                  | Some (i, p, rest) =>
-                      match explain_walk tr fuel' (set_nth ls i rest) (tl (frames_of p)) w' with
-                      | Some s =>
-                          Some (Emit i :: DrGet :: DrSend
-                                  :: (match tr with PollServer => [Poll] | _ => [] end) ++ s)
-                      | None => None
-                      end
-                  | None => None
-                  end
-              end
-          end
-      end
-  end.
-
-Definition explain_wire (tr : transport) (progs : list (list bpacket)) (w : list bepkt)
-  : option (list action) :=
-  match explain_walk tr (length w) progs [] w with
-  | Some s => Some (s ++ repeat Recv (length w))
-  | None => None
-  end.
-
-Definition model_finished (progs : list (list bpacket)) (fin : list (nat * nat * list bytes))
-  : list bpacket :=
-  map (fun '(i, j, atts) => mkSP (sp_hdr (nth j (nth i progs []) (mkSP [] []))) atts) fin.
-
-Definition agree_wire (c : wcase) : bool :=
-  let '(tr, complete, progs, w, fin) := c in
-  match explain_wire tr progs w with
-  | Some sched =>
-      match run_opt declared_bytes 0 no_split tr sched progs with
-      | Some s =>
-          list_eqb (epkt_eqb bytes_eqb) (st_wire s) w
-          && negb (st_rerr s)
-          && list_eqb (spacket_eqb bytes_eqb) (st_finished s) (model_finished progs fin)
-          && (if complete then all_nil (st_em s) && match st_parser s with None => true | _ => false end
-              else true)
-      | None => false
-      end
-  | None => false
-  end.
+Definition oracle_wire_i (c : icase) : bool := oracle_wire_g N.eqb c.
+Definition agree_wire_i (c : icase) : bool :=
+  let '(_, _, progs, _, _) := c in agree_wire_g N.eqb (declared_tbl (concat progs)) c.
+Definition ok_wire_i (c : icase) : bool := oracle_wire_i c && agree_wire_i c.
 
 (** ** Handler-level cases: packets are identified by (emitter, seq). *)
 
@@ -379,3 +408,7 @@ Definition agree_entries (c : hcase) : bool :=
       end
   | None => false
   end.
+
+(** class, and whether the entry order is a behaviour of the model (not asked when events were lost) *)
+Definition entry_verdict (c : hcase) : N * bool :=
+  let k := entry_class c in (k, if (k =? 2)%N then true else agree_entries c).
